@@ -67,7 +67,8 @@ def build_pdf(objects, root, info=None, form="table", tape=None, pack=None, trai
             nxt += 1
         entries[0] = ("f", 0, 65535)
         trailer[b"Size"] = nxt + 1
-        fw.xref_stream(nxt, entries, trailer, widths=(1, 3, 2), flt=flate_containers)
+        big = max([fw.pos() + 64, nxt] + [e[1] for e in entries.values()])
+        fw.xref_stream(nxt, entries, trailer, widths=(1, max(3, (big.bit_length() + 7) // 8), 2), flt=flate_containers)
     return fw
 
 
